@@ -19,7 +19,7 @@ CHECKS = {
  "C07": ("other", "5.7", TECH_K,
    "Partial. Decimal cut-offs imply zero/infinity for both moderate stages. Subnormal rounding results are NOT decided."),
  "C11": ("other", "5.11", TECH_K + "; abstract interpretation of the monomorphic MIR of the stage (carry-test rule, early-out post-conditions)",
-   "Partial. Tie-window bounds, table coverage and table contents; every ordering test between a wrapping 64-bit sum and one of its addends in the Eisel-Lemire product is equivalent to the carry; every exit of the stage is either declined with a normalised significand or definite with fields that pack without touching the exponent field (sentinel protocol); every early zero/infinity exit is implied by the exponent bound of its path; the round-to-even window as the code applies it (effective inclusive bounds of the comparisons on q) covers the exponents with exact ties; the normalisation shift is never dropped while Bellerophon's error term is live (this rule found the repaired error-budget defect); the wrapping_add/wrapping_sub of error_is_accurate provably do not wrap (found the second repaired defect). That a definite answer is correctly rounded is NOT decided."),
+   "Partial. Tie-window bounds, table coverage and table contents; every ordering test between a wrapping 64-bit sum and one of its addends in the Eisel-Lemire product is equivalent to the carry; every exit of the stage is either declined with a normalised significand or definite with fields that pack without touching the exponent field (sentinel protocol); every early zero/infinity exit is implied by the exponent bound of its path; the round-to-even window as the code applies it (effective inclusive bounds of the comparisons on q) covers the exponents with exact ties; the normalisation shift is never dropped while Bellerophon's error term is live (this rule found the repaired error-budget defect); the wrapping_add/wrapping_sub of error_is_accurate provably do not wrap (found the second repaired defect); sibling agreement between error_is_accurate and round: for every biased exponent of the subnormal range (singleton classes) and all larger exponents (one class) the width of the examined window equals the width round() shifts by. That a definite answer is correctly rounded is NOT decided."),
  "C12": ("other", "5.12", TECH_E,
    "Partial. No result of a fallible library call is dropped unread (MIR def-use, all configurations); 5^135 and 5^i constants exact. Exactness of carry chains is NOT decided."),
  "C14": ("proof", "5.14", "static analysis: compiler-evaluated constants checked exhaustively against definitions (no execution of the parser); abstract interpretation for the on-demand integer powers",
